@@ -212,6 +212,19 @@ class C04Registry(Case):
         data = dict(items=items, regs=regs, evals=[])
         events = []
         try:
+            if sp.get("warmup"):
+                # history over an UNRELATED query (own variable, own objects): it must not influence the registry query
+                others = tuple(Item(a=1, name="o%d" % i) for i in range(3))
+                with symbolic_mode():
+                    o = let(Item, domain=others)
+                    q0 = an(set_of([o], S.build(FF, {"x": o})))
+                for wop in sp["warmup"]:
+                    if wop == "TAKE":
+                        it0 = q0.evaluate()
+                        next(it0)
+                        it0.close()
+                    else:
+                        list(q0.evaluate())
             with rule_mode():
                 x = let(RItem, domain=items)
                 w = RReg(v=x.a)
@@ -294,6 +307,9 @@ def shapes(tier, seed):
             out.append(dict(template=tn, history=[["FAULT", 0]], final=0, domain=dom))
     for h in ([], ["FULL"], ["TAKE"], ["DROP"], ["TAKE", "FULL"], ["FULL", "TAKE"]):
         out.append(dict(scenario="registry_keyword_variable", history=h))
+    for wu in (["FULL"], ["TAKE"], ["TAKE", "FULL"]):
+        out.append(dict(scenario="registry_keyword_variable", history=[], warmup=wu))
+        out.append(dict(scenario="registry_keyword_variable", history=["TAKE"], warmup=wu))
     # caching disabled
     for tn in tnames:
         for op in (["TAKE", 0], ["FAULT", 0], ["DROP", 0]):
